@@ -1,0 +1,42 @@
+//go:build verif
+
+// Machine-checked contracts for this package (comment-only; compiled only under the
+// build tag `verif`, where it still contains no code). Checked by /verif/govc.
+package types
+
+// ---- C11: the position hooks are handed the CURRENT liquidity pool and perpetual pool -----------------
+// The accounted-pool implementation computes the accounted balance from the two pool objects in
+// the arguments, so every call site must pass them as stored at that moment. The frame is the union
+// of the implementations' inferred frames (accountedpool, tier); the preconditions are proved at
+// every call site in x/perpetual.
+//@ define perpNetOf(pp, d) := sumOver(pp.PoolAssetsLong, a, ite(a.AssetDenom == d, a.Liabilities - a.Custody, 0)) + sumOver(pp.PoolAssetsShort, a, ite(a.AssetDenom == d, a.Liabilities - a.Custody, 0))
+//@ define perpPoolRow(ctx, p) := row(ctx, "perpetual:types.GetPoolKey", "types.Pool", p)
+//@ define perpPoolHas(ctx, p) := has(ctx, "perpetual:types.GetPoolKey", p)
+
+//@ iface PerpetualHooks.AfterPerpetualPositionOpen
+//@ forall d Str
+//@ trusted
+//@ modifies table:accountedpool:types.KeyPrefix/types.AccountedPoolKey, table:amm~:types.KeyPrefix/types.PoolKey, table:masterchef:types.GetUserRewardInfoKey, table:tier:types.GetPortfolioKey, module:sdk-distribution
+//@ requires reserveOf(ammPool, d) == reserveOf(ammPoolRow(ctx, ammPool.PoolId), d) && ammPoolHas(ctx, ammPool.PoolId)
+//@ requires perpNetOf(perpetualPool, d) == perpNetOf(perpPoolRow(ctx, ammPool.PoolId), d) && perpPoolHas(ctx, ammPool.PoolId)
+
+//@ iface PerpetualHooks.AfterPerpetualPositionModified
+//@ forall d Str
+//@ trusted
+//@ modifies table:accountedpool:types.KeyPrefix/types.AccountedPoolKey, table:amm~:types.KeyPrefix/types.PoolKey, table:masterchef:types.GetUserRewardInfoKey, table:tier:types.GetPortfolioKey, module:sdk-distribution
+//@ requires reserveOf(ammPool, d) == reserveOf(ammPoolRow(ctx, ammPool.PoolId), d) && ammPoolHas(ctx, ammPool.PoolId)
+//@ requires perpNetOf(perpetualPool, d) == perpNetOf(perpPoolRow(ctx, ammPool.PoolId), d) && perpPoolHas(ctx, ammPool.PoolId)
+
+//@ iface PerpetualHooks.AfterPerpetualPositionClosed
+//@ forall d Str
+//@ trusted
+//@ modifies table:accountedpool:types.KeyPrefix/types.AccountedPoolKey, table:amm~:types.KeyPrefix/types.PoolKey, table:masterchef:types.GetUserRewardInfoKey, table:tier:types.GetPortfolioKey, module:sdk-distribution
+//@ requires reserveOf(ammPool, d) == reserveOf(ammPoolRow(ctx, ammPool.PoolId), d) && ammPoolHas(ctx, ammPool.PoolId)
+//@ requires perpNetOf(perpetualPool, d) == perpNetOf(perpPoolRow(ctx, ammPool.PoolId), d) && perpPoolHas(ctx, ammPool.PoolId)
+
+//@ iface PerpetualHooks.AfterParamsChange
+//@ forall d Str
+//@ trusted
+//@ modifies table:accountedpool:types.KeyPrefix/types.AccountedPoolKey, table:amm~:types.KeyPrefix/types.PoolKey, table:masterchef:types.GetUserRewardInfoKey, table:tier:types.GetPortfolioKey, module:sdk-distribution
+//@ requires reserveOf(ammPool, d) == reserveOf(ammPoolRow(ctx, ammPool.PoolId), d) && ammPoolHas(ctx, ammPool.PoolId)
+//@ requires perpNetOf(perpetualPool, d) == perpNetOf(perpPoolRow(ctx, ammPool.PoolId), d) && perpPoolHas(ctx, ammPool.PoolId)
